@@ -5,7 +5,9 @@ CHECK = {
     "assumptions": [
         "reference grammar from the file comment of src/sx.c with the delimiter/token rules pinned by test/t-sx-parser.c: atoms end at ( ) whitespace or end of input; decimal = digits only; hex = #x + hex digits of either case; symbol = letter then letters, digits, '-'",
         "a token that starts with '-' is left open by the documentation: either answer is accepted, only memory safety, termination, ledger and no-tree-with-error are demanded there",
-        "integer vocabulary stays below 2^64; symbol characters outside letters/digits/'-' are not generated",
+        "likewise a token that starts with a letter and contains a character nobody classifies ('#' in this alphabet: a#, x#F): open; '{' and '}' stay errors (pinned by t_sx_parse_token_error_symbol)",
+        "leak = live again when the same input is presented a second time with a fresh ledger; a block allocated once and kept by the parser for later calls is not a leak",
+        "integer vocabulary stays below 2^64; the tree family uses symbol characters from letters/digits/'-' only",
         "the ledger sees malloc/calloc/realloc/free/strdup/strndup referenced from sx.c (link-time --wrap); ASan red zones around exact-size blocks observe reads outside the input",
         "small-scope: string length and tree size up to the stated bound",
     ],
